@@ -251,6 +251,11 @@ func runTargets(t *simrt.Tape, keep bool) simrt.Outcome {
 			// blank-line separators where the manual shows them: always after a target with headers or a body,
 			// optional between header-less targets; none needed after the last target
 			needBlank := len(s.hdr) > 0 || s.bodyFile >= 0
+			if s.bodyFile >= 0 && t.Prob(1, 4) {
+				// (the body line is the last line of a target: the parser ends the target there, so that the next request
+				// line may follow it directly)
+				needBlank = false
+			}
 			if i < len(specs)-1 && (needBlank || t.Prob(1, 2)) {
 				file.WriteString("\n")
 				if t.Prob(1, 8) {
